@@ -225,7 +225,7 @@ def execute(plan, tier, seed, batch_seconds=60.0):
         retry = []
         for task in plan.tasks:
             res = results.get(task['id'], {})
-            if task['kind'] != 'ch' or task.get('twin_of') or res.get('state') != 'refuted' or not res.get('cex'):
+            if task['kind'] not in ('ch', 'enum') or task.get('twin_of') or res.get('state') != 'refuted' or not res.get('cex'):
                 continue
             robj = {'property': plan.prop, 'task': task['id'], 'kind': 'ch', 'fn': task['fn'], 'harness_src': open(task['module']).read(),
                     'args': res['cex']['args'], 'kwargs': res['cex']['kwargs'], 'meta': plan.meta.get(task['id'], {}),
@@ -292,7 +292,7 @@ def execute(plan, tier, seed, batch_seconds=60.0):
             inconclusive.append({'id': tid, 'why': 'skipped: ' + str(res.get('why'))})
         elif state in ('refuted', 'violation'):
             # build the replay object
-            if task['kind'] == 'ch':
+            if task['kind'] in ('ch', 'enum'):
                 if not res.get('cex'):
                     counts['inconclusive'] += 1
                     inconclusive.append({'id': tid, 'why': 'counterexample not parseable: ' + str(res.get('cex_message'))[:300]})
